@@ -265,6 +265,24 @@ class FilterSummary:
             return self._conj_of_negs(e.operand, not neg, at, depth + 1)
         if isinstance(e, ast.Call) and call_name(e) in ("np.invert", "np.logical_not") and len(e.args) == 1:
             return self._conj_of_negs(e.args[0], not neg, at, depth + 1)
+        if isinstance(e, ast.Call) and call_name(e) == "np.all" and e.args:
+            # np.all(~c, axis) is ~np.any(c, axis), row by row and NaN included
+            inner = e.args[0]
+            if isinstance(inner, ast.Name):
+                d_ = self._single_def(inner, at)
+                inner = d_ if d_ is not inner else inner
+            neg_in = None
+            if isinstance(inner, ast.UnaryOp) and isinstance(inner.op, (ast.Invert, ast.Not)):
+                neg_in = inner.operand
+            elif isinstance(inner, ast.Call) and call_name(inner) in ("np.invert", "np.logical_not") and len(inner.args) == 1:
+                neg_in = inner.args[0]
+            if neg_in is not None:
+                import copy as _cp
+
+                any_call = _cp.copy(e)
+                any_call.func = ast.Attribute(value=ast.Name(id="np", ctx=ast.Load()), attr="any", ctx=ast.Load())
+                any_call.args = [neg_in] + list(e.args[1:])
+                return self._conj_of_negs(any_call, not neg, at, depth + 1)
         parts, kind = None, None
         if isinstance(e, ast.BinOp) and isinstance(e.op, (ast.BitOr, ast.BitAnd)):
             parts, kind = [e.left, e.right], "or" if isinstance(e.op, ast.BitOr) else "and"
